@@ -117,6 +117,20 @@ def run(ctx):
         payloads[case] = {"kind": "fixture", "path": p}
         ctx.add_case(payloads[case])
     results += core.parallel_map(_fixture_job, fjobs)
+    if not ctx.quick:
+        # thorough tier: every distinct mesh / frame the repository's own tests construct (traced from outside)
+        from harness.props import suite
+        scases, tail, errors = suite.collect(ctx)
+        if "passed" not in tail or "failed" in tail or errors:
+            raise core.MachineryFailure(f"traced test-suite: {tail} {errors[:2]}")
+        for c, evs in scases.items():
+            case += 1
+            for e in evs:
+                e["case"] = case
+            results.append((case, evs))
+            payloads[case] = {"kind": "suite", "src": evs[0].get("src"), "nv": evs[0]["mesh"]["nv"]}
+            ctx.add_case(payloads[case])
+        ctx.extra["traced_suite"] = {"result": tail, "distinct_meshes": len(scases)}
     verdicts = ctx.validate("Trace_Mesh", results)
     # this check owns C08 clauses only; C09 clauses on the same traces are C09's business but a mesh
     # that is inconsistent invalidates the C08 oracle, so they are relayed as notes
@@ -143,6 +157,8 @@ def run(ctx):
 
 def replay(ctx, payload):
     inp = payload["input"]
+    if inp["kind"] == "suite":
+        raise core.MachineryFailure("meshes traced from the test-suite are replayed by re-running `./check C08 --tier thorough`")
     if inp["kind"] == "catalogue":
         c, evs = _catalogue_job((1, inp["base"], inp, payload["seed"]))
     elif inp["kind"] == "voronoi":
